@@ -35,6 +35,8 @@ def _dyadic(draw, tier):
     c["mrts"] = draw(gen.mrts_for(g, allow_auto=True))
     c["max_tau"] = draw(gen.maxtau_for(g))
     c["compiled"] = draw(st.booleans())
+    c["mrts_type"] = draw(st.sampled_from([None, None, "int", "np.int64", "np.float32",
+                                           "np.float64"]))
     c["domain"] = "dyadic"
     return c
 
